@@ -40,7 +40,7 @@ MonStep(m, e) ==
       [] e.ev = "ApiCall" /\ e.op \in RecvOps -> [m EXCEPT !.rcalls = Append(@, [g |-> e.g, op |-> e.op, i |-> e.i])]
       [] e.ev = "ApiRet" /\ e.op \in RecvOps ->
             [m EXCEPT !.recvs = Append(@, [g |-> e.g, op |-> e.op, err |-> e.err, callID |-> e.callID, req |-> e.reqCallID, psum |-> e.psum,
-                                           src |-> e.src, name |-> e.name, i |-> e.i, ci |-> e.ci])]
+                                           src |-> e.src, name |-> e.name, i |-> e.i, ci |-> e.ci, bound |-> e.boundMs])]
       [] e.ev = "BRecvCall" -> [m EXCEPT !.bcalls = Append(@, [psum |-> e.psum, callID |-> e.callID, req |-> e.reqCallID, c |-> e.c, i |-> e.i])]
       [] e.ev = "BSendCallAck" -> [m EXCEPT !.acks = Append(@, [callID |-> e.callID, code |-> e.code, c |-> e.c, i |-> e.i, t |-> e.t, failed |-> FALSE])]
       [] e.ev = "BSendCall" -> [m EXCEPT !.sent = Append(@, [callID |-> e.callID, req |-> e.reqCallID, psum |-> e.psum, c |-> e.c, i |-> e.i, t |-> e.t, failed |-> FALSE])]
@@ -156,7 +156,12 @@ InboxWrongOp(m, op) ==
        \/ \E r \in RangeS(m.recvs) : r.op = op /\ r.err = "" /\ ((r.req = "") # (op = "ReceiveCall"))   \* wrong inbox
        \/ /\ m.q1 > 0 /\ ~Faulty(m) /\ Len(A) <= InboxCap                                                \* settled: nothing lost, nothing skipped
           /\ (Len(Rq) # expect \/ { PosArr(A, Rq[k]) : k \in 1..Len(Rq) } # 1..Len(Rq))
-InboxWrong(m) == InboxWrongOp(m, "ReceiveCall") \/ InboxWrongOp(m, "ReceiveReplyCall")
+\* an item that arrived is never handed over although a receive waited for it (at least 200 ms) after everything had arrived
+InboxLostOp(m, op) ==
+    LET A == Arr(m, op)  lastArr == Max0({ A[j].i : j \in 1..Len(A) })
+    IN /\ ~Faulty(m) /\ Len(A) <= InboxCap /\ Len(Got(m, op)) < Len(A)
+       /\ \E r \in RangeS(m.recvs) : r.op = op /\ r.err = "ctx" /\ r.bound >= 200 /\ r.ci > lastArr
+InboxWrong(m) == InboxWrongOp(m, "ReceiveCall") \/ InboxWrongOp(m, "ReceiveReplyCall") \/ InboxLostOp(m, "ReceiveCall") \/ InboxLostOp(m, "ReceiveReplyCall")
 
 Clause(name, b) == IF b THEN {name} ELSE {}
 MonVerdict(m) ==
